@@ -40,7 +40,7 @@ def gen_call(ctx: Ctx, M):
         agg = ("sum",)
     elif a < 0.7 and T in (1, 2, 4):
         agg = ("mean",)
-    elif M.P.big:
+    elif M.P.big or M.P.casts:
         agg = ("const", [rng.choice([-2, -1, 1, 2, 3]) for _ in range(T)])     # the probe is cubic in J: not exact with *BIG
     else:
         agg = ("probe", [rng.choice([-2, -1, 1, 2, 3]) for _ in range(T)])
